@@ -31,6 +31,21 @@ type edit struct {
 	text       string
 }
 
+// goVersionOf reads the go directive of the module under root (a change under test may raise it).
+func goVersionOf(root string) string {
+	b, err := os.ReadFile(filepath.Join(root, "go.mod"))
+	if err != nil {
+		return "go1.18"
+	}
+	for _, l := range strings.Split(string(b), "\n") {
+		f := strings.Fields(l)
+		if len(f) == 2 && f[0] == "go" {
+			return "go" + f[1]
+		}
+	}
+	return "go1.18"
+}
+
 func die(format string, a ...any) {
 	fmt.Fprintf(os.Stderr, "rewrite: "+format+"\n", a...)
 	os.Exit(2)
@@ -117,7 +132,7 @@ func doPackage(dir string, imap map[string]string, timers, maprange, yield bool,
 		info = &types.Info{Types: map[ast.Expr]types.TypeAndValue{}}
 		conf := types.Config{
 			Importer:  importer.ForCompiler(fset, "source", nil),
-			GoVersion: "go1.18",
+			GoVersion: goVersionOf("."),
 			Error:     func(err error) {},
 		}
 		if _, err := conf.Check("github.com/welllog/golib/"+dir, fset, files, info); err != nil {
